@@ -493,7 +493,8 @@ enum cc_stat cc_array_sized_subarray(CC_ArraySized *ar, size_t b, size_t e, CC_A
     sub_ar->mem_calloc  = ar->mem_calloc;
     sub_ar->mem_free    = ar->mem_free;
     sub_ar->size        = e - b + 1;
-    sub_ar->capacity    = sub_ar->size;
+    sub_ar->capacity    = ar->capacity;
+    sub_ar->exp_factor  = ar->exp_factor;
     sub_ar->data_length = ar->data_length;
 
     memcpy(sub_ar->buffer,
